@@ -103,6 +103,7 @@ func c09(run *ev.Run, tier string) {
 		variants = []int{0, 1, 2, 3, 4, 5, 6, 7}
 	}
 	run.Rule = "exhaustive over every subset of the configurable script slots of every format (deb 2^7, rpm 2^7, apk 2^6, archlinux 2^6, ipk 2^4 = 400 subsets) x body variants (text, CRLF/no trailing newline, binary, leading UTF-8 BOM with trailing blanks; thorough adds trailing blanks, wrapper look-alike, blank lines, empty, 1 MiB); script files carry varying on-disk permissions; each slot's body holds a unique token. Slots decoded from control members / rpm scriptlet tags / .INSTALL are compared byte-for-byte with the files the harness wrote. History scenarios (script rewritten in place, failed builds at every position, override merging); scripts read from files reporting size 0 (procfs); script paths containing '$name'. non-trivial = subsets with >=2 configured slots; distinct = (format, subset, variant)"
+	run.Rule += "; the nfpm binary with the packager guessed from the target extension over per-format script overrides"
 	run.SetExhaustive(true)
 	dir := newWorkDir("c09")
 	defer removeWorkDir(dir)
